@@ -13,7 +13,7 @@ Perm, which C01 explores).  Every sub-check enumerates a stated finite space com
            of length 7..10 (thorough ..11) x 145 patterns (many shadings per underlying pattern,
            queried one after the other on the same text object)
   scale    pattern nearly as long as the text (n - k <= 4 at n = 9..12; n - k <= 18 at n = 31..34;
-           n - k <= 2 at n = 255..258) on structured texts: sizes that straddle thresholds of the
+           n - k <= 6 at n = 255..258) on structured texts: sizes that straddle thresholds of the
            runtime (set tables of 8 and 32 slots, small-int cache)
   biv      every BivincularPatt / VincularPatt / CovincularPatt of length <= 3 (all adjacency
            sets) against the adjacency oracle, which never looks at shadings
@@ -402,29 +402,42 @@ def shard_selfcheck(shard):
 # (set tables of 8 / 32 slots, small-int cache at 256)
 # --------------------------------------------------------------------------------------------
 
-def coprime_multipliers(n, count):
+def coprime_multipliers(n, count=3):
+    """Multipliers q coprime to n for the texts i -> q*i mod n: the two nearest to n*0.618 and the
+    nearest to sqrt(n) (such texts are rigid: a long sub-pattern has very few occurrences)."""
     import math as _m
-    return [q for q in range(2, n) if _m.gcd(q, n) == 1][:count]
+    cop = [q for q in range(2, n) if _m.gcd(q, n) == 1]
+    out = sorted(cop, key=lambda q: (abs(q - n * 0.618), q))[:2]
+    for q in sorted(cop, key=lambda q: (abs(q - n ** 0.5), q)):
+        if q not in out:
+            out.append(q)
+            break
+    return out[:count]
 
 
 def scale_texts(n, rigid_only=False):
     """Structured texts of length n.  rigid: i -> q*i mod n (few occurrences of long
     sub-patterns).  Otherwise also: identity, reverse identity, identity with one adjacent
-    transposition (every position), rotations of the identity, two-block layered perms and their
-    reverses, 'first value q then decreasing', direct sums of 10 / 021 / 120 / 201 with a long
+    transposition, rotations of the identity, two-block layered perms and their reverses (for
+    n <= 16 every position / rotation / block size, for longer texts those at 0, 1, 2, n//2, n-3,
+    n-2, n-1), 'first value q then decreasing', direct sums of 10 / 021 / 120 / 201 with a long
     increasing run (both orders)."""
     out = [tuple(q * i % n for i in range(n)) for q in coprime_multipliers(n, 3)]
     if not rigid_only:
         ident = tuple(range(n))
         out += [ident, ident[::-1]]
-        for i in range(n - 1):
-            t = list(ident)
-            t[i], t[i + 1] = t[i + 1], t[i]
-            out.append(tuple(t))
-        out += [tuple((i + r) % n for i in range(n)) for r in range(1, n)]
-        for c in range(1, n):
-            t = tuple(range(c - 1, -1, -1)) + tuple(range(n - 1, c - 1, -1))
-            out += [t, t[::-1]]
+        # short texts: every position / rotation / block size; long texts: near the ends and the middle
+        where = range(n) if n <= 16 else sorted({0, 1, 2, n // 2, n - 3, n - 2, n - 1})
+        for i in where:
+            if i + 1 < n:
+                t = list(ident)
+                t[i], t[i + 1] = t[i + 1], t[i]
+                out.append(tuple(t))
+        out += [tuple((i + r) % n for i in range(n)) for r in where if r >= 1]
+        for c in where:
+            if c >= 1:
+                t = tuple(range(c - 1, -1, -1)) + tuple(range(n - 1, c - 1, -1))
+                out += [t, t[::-1]]
         for q in sorted({0, 1, n // 2, n - 2, n - 1}):
             out.append((q,) + tuple(v for v in range(n - 1, -1, -1) if v != q))
         for small in ((1, 0), (0, 2, 1), (1, 2, 0), (2, 0, 1)):
@@ -441,14 +454,27 @@ def scale_texts(n, rigid_only=False):
 
 def scale_deletions(n, dmax):
     """Sets of positions to delete from the text (the pattern is what is left).  Short texts:
-    every set of 1..dmax positions out of {0, 1, n//2, n-2, n-1}.  Long texts (n > 16): the first
-    d entries of a fixed list that starts with the last position, for d = 1, 2, 3, 4, 5, 6, 12, 18
-    (d <= dmax)."""
+    every set of 1..dmax positions out of {0, 1, n//2, n-2, n-1}.  Long texts (n > 16): for
+    d = 1, 2, 3, 4, 5, 6, 12, 18 (d <= dmax) the first d entries of four fixed lists that all start
+    with the last position (spread out / the last d / the first d-1 / odd positions; for d > 6
+    only the spread-out and the odd ones)."""
     if n <= 16:
         probe = sorted({0, 1, n // 2, n - 2, n - 1})
         return [D for d in range(1, dmax + 1) for D in itertools.combinations(probe, d)]
-    prio = [n - 1, 0, 8, n - 2, 1, 16] + [i for i in range(2, n - 2, 2) if i not in (8, 16)]
-    return [tuple(sorted(prio[:d])) for d in (1, 2, 3, 4, 5, 6, 12, 18) if d <= dmax]
+    spread = [n - 1, 0, 8, n - 2, 1, 16] + [i for i in range(2, n - 2, 2) if i not in (8, 16)]
+    top = list(range(n - 1, -1, -1))
+    bottom = [n - 1] + list(range(0, n - 1))
+    odd = [n - 1] + [i for i in range(1, n - 1, 2)] + [i for i in range(0, n - 1, 2)]
+    out = []
+    for d in (1, 2, 3, 4, 5, 6, 12, 18):
+        if d <= dmax:
+            # contiguous deletions leave a window of the text, which a periodic text contains at
+            # many shifts (expensive for both sides): those only up to d = 6
+            for prio in ((spread, top, bottom, odd) if d <= 6 else (spread, odd)):
+                D = tuple(sorted(prio[:d]))
+                if D not in out:
+                    out.append(D)
+    return out
 
 
 def scale_specs(patt, cells):
@@ -684,8 +710,8 @@ def run(ctx, only=None):
 
     if want("scale"):
         small = (9, 10) if quick else (9, 10, 11, 12)
-        mid = (33, 34) if quick else (31, 32, 33, 34)
-        big = (257,) if quick else (255, 256, 257, 258)
+        mid = (31, 32, 33, 34)
+        big = (255, 256, 257, 258) if quick else (255, 256, 257, 258, 300)
         for n in small:
             nt = len(scale_texts(n))
             jobs += [(shard_scale, (n, lo, min(nt, lo + 2), 4, False)) for lo in range(0, nt, 2)]
@@ -694,15 +720,15 @@ def run(ctx, only=None):
             nt = len(scale_texts(n))
             jobs += [(shard_scale, (n, lo, min(nt, lo + 8), 2, False)) for lo in range(3, nt, 8)]
         for n in big:
-            jobs += [(shard_scale, (n, i, i + 1, 2, True)) for i in range(3)]
+            jobs += [(shard_scale, (n, i, i + 1, 6, True)) for i in range(3)]
         ctx.bounds["scale"] = {
             "what": "pattern = text minus d positions (so n - k = d), every shading of a family built around "
                     "the cells of the deleted points (single cells, vincular/covincular/bivincular lines)",
             "lengths": {"structured texts (identity, reverse, adjacent transpositions, rotations, 2-block layered, "
                         "q then decreasing, small (+) long increasing, q*i mod n), d = 1..4 out of 5 probe positions":
                         list(small),
-                        "q*i mod n (3 multipliers), d in 1,2,3,4,5,6,12,18; all structured texts with d <= 2": list(mid),
-                        "q*i mod n (3 multipliers), d in 1,2": list(big)},
+                        "q*i mod n (3 multipliers), d in 1,2,3,4,5,6,12,18 (4 deletion sets each, all containing the last position); all structured texts with d <= 2": list(mid),
+                        "q*i mod n (3 multipliers), d in 1..6 (4 deletion sets each)": list(big)},
             "reference": "prefix-extension search (ref_c03.occurrences_dfs, cross-checked with combinations on S<=6) + cell_of"}
 
     if want("biv"):
